@@ -51,7 +51,7 @@ var keyNames = []string{"a", "b", "-a", "id"}
 var (
 	skOf    [4]*big.Int // scalar of each alphabet key (0 for identity)
 	combos  [3]combo
-	hashOfC [3]string   // the 128-byte expand_message output of each combo (what mapPerHash is keyed by)
+	hashOfC [3]string    // the 128-byte expand_message output of each combo (what mapPerHash is keyed by)
 	hOfC    [3]refbls.G1 // H(m) of each combo as a reference point
 	maxL    = 5
 	tab     [3][][]refbls.G1 // tab[c][x+maxL][y] = (x*a + y*b)*H_c   for |x|+y <= maxL
